@@ -266,6 +266,11 @@ func cmdC12(args []string) error {
 	}
 	jobs := make(chan c12Case, len(all))
 	for _, c := range all {
+		// the specification collapses assignments that differ by a permutation of the KDCs; the position a KDC has in the
+		// configuration file is chosen here, seeded (the admissible results do not depend on it)
+		bs := append([]c12Beh{}, c.Beh...)
+		r.Shuffle(len(bs), func(i, j int) { bs[i], bs[j] = bs[j], bs[i] })
+		c.Beh = bs
 		jobs <- c
 	}
 	close(jobs)
